@@ -2,4 +2,10 @@
 //! Each harness is preceded by `// TIER: quick|thorough BOUNDS: <text>` which bin/check reads.
 #![allow(dead_code)]
 #[cfg(kani)]
+mod model;
+#[cfg(kani)]
+mod c02;
+#[cfg(kani)]
+mod c04;
+#[cfg(kani)]
 mod c19;
